@@ -36,9 +36,21 @@ fn sum_header(h: &BlockHeader) -> String { format!("v{}{}", h.version, if h.is_d
 
 pub fn eval(case: &str) -> Out {
     let w: Vec<&str> = case.split(' ').collect();
-    if w.len() != 5 { return Out::ok("harnesserr args".into()); }
+    if w.len() != 5 && w.len() != 6 { return Out::ok("harnesserr args".into()); }
     let b = match if w[4] == "-" { Some(vec![]) } else { unhex(w[4]) } { Some(b) => b, None => return Out::ok("harnesserr hex".into()) };
-    match w[1] {
+    let must_accept = w.len() == 6 && w[5] == "ref";
+    let mut o = eval_ty(w[1], &b);
+    if must_accept && o.pred_fail.is_none() {
+        // the input is the reference encoding of a canonical in-memory value: rejecting it, or not consuming all of it, violates the property
+        let consumed_all = o.result.split(' ').nth(1).map(|c| c == b.len().to_string()).unwrap_or(false);
+        if !o.result.starts_with("ok ") { o.pred_fail = Some("reference-encoding-rejected|the decoder rejects the consensus encoding of a canonical value (or the crate's own encoder no longer produces it)".to_string()); }
+        else if !consumed_all { o.pred_fail = Some("reference-encoding-not-consumed|the decoder did not consume the whole consensus encoding of a canonical value".to_string()); }
+    }
+    o
+}
+fn eval_ty(ty: &str, b: &[u8]) -> Out {
+    let b = b.to_vec();
+    match ty {
         "tx" => run::<Transaction>(&b, |t| format!("w{}/{}/{}", t.has_witness() as u8, t.output.len(), t.input.iter().map(sum_txin).collect::<Vec<_>>().join(","))),
         "txin" => run::<TxIn>(&b, sum_txin),
         "txout" => run::<TxOut>(&b, |_| "-".into()),
@@ -56,6 +68,14 @@ pub fn mk(ty: &str, b: &[u8], mut tags: Vec<String>, accepted_hint: bool) -> Cas
     let pts = valid_points(b);
     tags.push(format!("ty:{}", ty));
     Case { text: format!("C01 {} {} {} {}", ty, caps(), hexlist(&pts), if b.is_empty() { "-".to_string() } else { hex(b) }), tags, nontrivial: accepted_hint }
+}
+
+/// a case whose input is the reference encoding of a canonical in-memory value (must be accepted and fully consumed)
+pub fn mk_ref(ty: &str, b: &[u8], mut tags: Vec<String>) -> Case {
+    tags.push("src:reference-encoder".into());
+    let mut c = mk(ty, b, tags, true);
+    c.text.push_str(" ref");
+    c
 }
 
 pub fn rparams(rng: &mut ChaCha20Rng, tags: &mut Vec<String>) -> dynafed::Params {
@@ -97,7 +117,7 @@ pub fn gen(rng: &mut ChaCha20Rng, n: usize, thorough: bool) -> Vec<Case> {
     for k in 0..n {
         let mut tags = vec!["src:structured".to_string()];
         let (ty, b): (&str, Vec<u8>) = match k % 10 {
-            0..=4 => ("tx", serialize(&rtx(rng, f, &mut tags))),
+            0..=4 => { let t = rtx(rng, f, &mut tags); let r = ref_tx(&t); if tx_is_canonical(&t) { valid.push(("tx".to_string(), r.clone())); out.push(mk_ref("tx", &r, tags)); continue; } ("tx", r) }
             5 => ("txin", serialize(&rtxin(rng, f, &mut tags))),
             6 => ("txout", serialize(&rtxout(rng, f, &mut tags))),
             7 => ("header", serialize(&rheader(rng, &mut tags))),
